@@ -87,7 +87,7 @@ CLAIMED = {
                 "master-key order literal and the HMAC key are regenerated (= Spec). Correspondence: BIP32 vector sets 1-5, seeds 16..64 "
                 "bytes, paths to depth 8 over boundary indices, field mutations of 78-byte payloads, small curves reaching the failure "
                 "branches, independent Python BIP32.",
-        "note": "curve_facts and sqrt_facts are premises of the generic theorems, discharged for secp256k1 in Props/Secp256k1.v (coq/GL) and on the small curves. hmac_sha512, "
+        "note": "Also modelled beyond the statement (Props/C09Ext.v, closed): wallet/hd.py derive_child (raises for every argument on the code as it is; its body = one derive_from_path step) and the HD class (root keys = serialised to_master_key(to_seed(..)) and its neutered key). curve_facts and sqrt_facts are premises of the generic theorems, discharged for secp256k1 in Props/Secp256k1.v (coq/GL) and on the small curves. hmac_sha512, "
                 "sha256, ripemd160 arbitrary with the right output lengths. Paths restricted to ASCII. Trusted: Coq kernel, extraction, "
                 "harness, hashlib/hmac.",
         "technique": "Coq proof (group-homomorphism algebra, refinement to a BIP32 spec, codec accept-iff) + regenerated constants + correspondence",
@@ -103,7 +103,7 @@ CLAIMED = {
                 "is regenerated from the code on every run (length, NoDup, a-z proved by computation; SHA-256 digest of english.txt "
                 "checked). Correspondence: Trezor vectors, all lengths/patterns, 2048 last-word sweep (exactly 128 accepted), whitespace "
                 "and NFKD classes, independent Python reference with its own PBKDF2.",
-        "note": "sha256, pbkdf2 and NFKD are oracles (arbitrary functions in the theorems; hashlib/unicodedata at run time); the seed "
+        "note": "Also: first use of the module under an aborted load of english.txt and under two threads (the word list must never be observed half-loaded). sha256, pbkdf2 and NFKD are oracles (arbitrary functions in the theorems; hashlib/unicodedata at run time); the seed "
                 "clause is definitional in Coq and decided by the correspondence against an independent PBKDF2. Trusted: Coq kernel, "
                 "extraction, harness.",
         "technique": "Coq proof (radix/bit-list algebra, checksummed bijection) + regenerated word list + checked correspondence",
@@ -118,7 +118,7 @@ CLAIMED = {
                 "one byte. Correspondence: the C05 transaction grammar x trailing buffers (empty, single bytes that do / do not occur in "
                 "the tx, the tx's own last 4 bytes, a second tx, a copy of itself) x sequences {0, fffffffe, ffffffff, random}, "
                 "independent Python serialiser + hashlib.",
-        "note": "Theorems are about the hand-written model of tx.tx_deser / tx.tx (Model/Tx.v) shared with C05; wf_tx demands at least "
+        "note": "The check also drives integrations.mine_block (header commits to the consensus txids incl. the coinbase) and one-field-apart transaction pairs in one process. Theorems are about the hand-written model of tx.tx_deser / tx.tx (Model/Tx.v) shared with C05; wf_tx demands at least "
                 "one input (a zero-input legacy encoding is indistinguishable from the segwit marker - shown by an Example). sha256 "
                 "arbitrary. Trusted: Coq kernel, extraction, harness, hashlib.",
         "technique": "Coq proof (codec round trip with trailing bytes, id = hash of spec serialisation) + correspondence",
@@ -197,7 +197,7 @@ CLAIMED = {
                 "public forms round-trip and the DER bytes equal the RFC 5915 / RFC 5480 encodings written from the RFCs. WIF tables and "
                 "OIDs regenerated from the code (= Spec). Correspondence: structured SEC1 candidates of all lengths 0..70, exhaustive x "
                 "on small curves, WIF corruptions, PEM both ways against OpenSSL (python cryptography).",
-        "note": "The square-root facts (p = 3 mod 4, Euler criterion, no order-2 point) are the premise sec1_facts of the generic theorems; "
+        "note": "Also modelled beyond the statement (Props/C14Ext.v, closed): pem.decode_pem / encode_pem for any label (round trip under the base64 hypotheses, armor shape, refusals). The square-root facts (p = 3 mod 4, Euler criterion, no order-2 point) are the premise sec1_facts of the generic theorems; "
                 "proved for secp256k1 in Props/Secp256k1.v (coq/GL/SqrtFacts.v) and by computation for p = 43, 79, 67; base64 is an oracle with the hypothesis decode(encode x) = x; "
                 "OpenSSL interoperability is decided by the correspondence only. Trusted: Coq kernel, extraction, harness, OpenSSL.",
         "technique": "Coq proof (accept-iff with a SEC1 spec, codec round trips, RFC byte equality) + regenerated tables + correspondence",
@@ -214,7 +214,7 @@ CLAIMED = {
                 "codec of C05/C04 (same header fields, transactions in order with their ids and raw bytes). Constants regenerated "
                 "(= Spec). Correspondence: every list length 1..300 (2048 thorough), every halving boundary on both schedules, BIP34 "
                 "boundaries, scripts 0..101 bytes, blocks of 1..50 generated transactions, mine_block assembly.",
-        "note": "Theorems are about the hand-written models of blockchain.py / tx.coinbase_tx / coinbase_txin / integrations.mine_block "
+        "note": "Also modelled beyond the statement (Props/C15Ext.v, closed): target_threshold (= mantissa*256^(e-3); = Bitcoin Core SetCompact exactly on the well-formed range, iff), difficulty, median_time (= Core's median-time-past from 12 blocks on), genesis block bytes. Theorems are about the hand-written models of blockchain.py / tx.coinbase_tx / coinbase_txin / integrations.mine_block "
                 "assembly; heights above 2^33 are outside the correspondence (Python builds 2**halvings). Trusted: Coq kernel, "
                 "extraction, harness, hashlib.",
         "technique": "Coq proof (refinement to level-wise merkle spec, CScriptNum minimality, codec round trip) + correspondence",
@@ -249,7 +249,7 @@ CLAIMED = {
                 "invert each other on everything the builders can produce. Magics, COMMANDS, sizes, inventory ids regenerated (= Spec). "
                 "Correspondence: scripted socket with a call counter, all compositions of short streams, bit flips per region, EOF at "
                 "every offset, payloads to 70000 bytes, codec fields over full ranges.",
-        "note": "Real socket blocking/timeouts are not modelled (recv always returns). sha256 arbitrary with 32-byte output. The version "
+        "note": "Also modelled beyond the statement (Props/C17Ext.v, closed): getblocks_payload and headers_payload with round-trip theorems. Real socket blocking/timeouts are not modelled (recv always returns). sha256 arbitrary with 32-byte output. The version "
                 "PARSER deviates from the wire format outside what the library's own builder produces (binary IP fields, user agent >= 253 "
                 "bytes, absent relay byte): stated as _refuted theorems, outside the property (built payloads). Trusted: Coq kernel, "
                 "extraction, harness.",
@@ -266,7 +266,7 @@ CLAIMED = {
                 "(the race). The registered command list and handler behaviour are probed from the code on every run (= model). "
                 "Correspondence: the real recv_loop bodies in real threads under a baton scheduler with scheduling points in "
                 "harness-supplied deque/list objects and sendall; all schedules of 2x<=2 and 3x1 programs, sampled 3x3.",
-        "note": "Assumes CPython GIL atomicity of deque.append/pop, `in` on a list and sendall on distinct sockets; thread start/stop, "
+        "note": "Scheduling points: the operations on the shared containers and sockets (exhaustive sweeps) AND, in `linesweep` cases, every source line of p2p.py (sys.settrace; uniform, skewed and bursty random interleavings). Assumes CPython GIL atomicity of deque.append/pop, `in` on a list and sendall on distinct sockets; thread start/stop, "
                 "socket timeouts, exit_event and malformed frames (which kill a receive thread) are outside the model. Trusted: Coq "
                 "kernel, extraction, harness scheduler.",
         "technique": "Coq proof (invariant over all interleavings, schedule independence, refutation of the racy body) + scheduled real-thread correspondence",
@@ -309,7 +309,7 @@ CLAIMED = {
                 "hashOutputs zeroing rules, SINGLE out of range = 32 zero bytes, selected outpoint/amount/sequence) for an arbitrary hash "
                 "function. SIGHASH constants are regenerated from the code and proved equal to the BIP's. Correspondence: full 8x8xindex"
                 "x6 product, boundaries, BIP143 vectors, implementation vs model vs spec vs an independent Python reference.",
-        "note": "Theorems are about the hand-written model of witness_message/txin/txout/outpoint; sha256 arbitrary. Non-standard sighash "
+        "note": "The check also drives the library's own caller of witness_message (tx.send_tx on segwit senders), judged by an independent consensus-level reference. Theorems are about the hand-written model of witness_message/txin/txout/outpoint; sha256 arbitrary. Non-standard sighash "
                 "bytes (outside the property) are documented as deviating. Trusted: Coq kernel, extraction, harness, hashlib.",
         "technique": "Coq proof (refinement of the code model to a BIP143 spec) + checked model/code correspondence",
         "design": "DESIGN.md section 8 / C11",
